@@ -39,7 +39,7 @@ structure TableRef where
   isPermuted : Bool
   /-- `tensor_factors`: (name, `values.shape[-1]`) of every factor table -/
   factors : Option (List (String × Nat))
-  deriving Repr, Inhabited
+  deriving DecidableEq, Repr, Inhabited
 
 /-- `piecewise_ttypes` of `ffcx/ir/elementtables.py` -/
 def piecewiseTtypes : List String := ["piecewise", "fixed", "ones", "zeros"]
@@ -64,7 +64,7 @@ structure QRule where
 structure ArgDesc where
   table : TableRef
   restriction : Restr
-  deriving Repr, Inhabited
+  deriving DecidableEq, Repr, Inhabited
 
 /-- One `BlockDataT` as `generate_block_parts` sees it. `f` is what `get_var` returns for the
     factor expression (a literal, an `sv_`/`sp_` symbol, or a terminal access). -/
@@ -78,6 +78,9 @@ structure BlockData where
   allFactorsPiecewise : Bool
   transposed : Bool
   f : Expr
+  /-- `ma_data[i].ma_index`: the positions of the block's modified arguments in the factorisation
+      graph `F` (not read by the generator; used by the specification link) -/
+  maIndices : List Nat := []
   deriving Repr, Inhabited
 
 /-- One call of `IntegralGenerator.generate_block_parts`. -/
@@ -418,6 +421,13 @@ def fwState (g : GroupDesc) : GenState → List BlockData → GenState
 def allFw : GenState → List GroupDesc → List Expr
   | _, [] => []
   | st, g :: gs => fwExprs g st g.blocks ++ allFw (fwState g st g.blocks) gs
+
+/-- all blocks of all groups of a rule with their `fw` expressions (cache threaded) -/
+def allBlocks : GenState → List GroupDesc → List (GroupDesc × BlockData × Expr)
+  | _, [] => []
+  | st, g :: gs =>
+    (g.blocks.zip (fwExprs g st g.blocks)).map (fun p => (g, p.1, p.2)) ++
+      allBlocks (fwState g st g.blocks) gs
 
 /-- the emitted terms of a group, in the order of the `AssignAdd` statements -/
 def emittedTerms (outs : List BlockOut) : List Term :=
